@@ -295,6 +295,9 @@ def run(tier, replay=None):
     # values built by the compile-time macros belong to this property's domain as well: the macro witnesses of C16 (cached per tree)
     from . import c16
     c16.witness_family(rep, tier)
+    # "consequently canonicalize is idempotent": only because canonicalize is parse-then-print and nothing else (shared with C02 C03 C04)
+    from . import c04
+    c04.canonicalize_shape(prog, rep)
     rep.explanation = ('Round-trip equality is not executed. Decided: the printers are their grammars (emission automata) and the parsers are their tables (per-state transition tables from MIR); '
                        'every sentence of the printer grammars - all optional parts, lists unrolled 0..2, every extension followed by every extension the printer can put after it - is re-read by the '
                        'tables into the slot each subtag was printed from (this is where the order t,u,x, the positional disjointness of script/region/variant, key/attribute/type, tkey/tvalue/region, '
